@@ -384,6 +384,10 @@ func (st *c10State) runCallerOps(ci int, ops []Op, late bool) {
 		case "tagreads":
 			// pipelined Tag interface: n reads under one shared tag
 			n, cnt := int(op.a(1)), uint32(op.a(2))
+			if op.a(2) < 0 {
+				cnt = clnt.Msize - 11 // the Rread is a frame of exactly msize bytes (the Tag interface does not clamp to iounit)
+				st.x.Probe("reply-of-exactly-msize")
+			}
 			chcap := n
 			if len(op.A) > 3 {
 				// a consumer that takes completions one at a time, or with room for one only
